@@ -173,7 +173,48 @@ def handle (op _opts payload : String) : String :=
   else "bad-request"
 end WF
 
+/-! ### WFX sections: a section is `x<tag>:<T|I|R|M>:<per>:<payload>` (`T`: text lines `x…/x…`; `I`: integers; `R`: reals,
+`nan` allowed; `M`: orbitals separated by `|`), sections separated by `,`; `parse` answers the dictionary
+`x<tag>:x<line>/x<line>/…,…`; `decodeI` / `decodeR` answer the typed values of lines `x…/x…` -/
+namespace WX
+open Iodata.Fmt.WfxS
+
+def decReal (s : String) : Option Sci := if s == "nan" then none else some (F.decSci s)
+def encReal : Option Sci → String
+  | none => "nan"
+  | some x => F.encSci x
+
+def decSec (s : String) : Sec :=
+  match s.splitOn ":" with
+  | [t, k, per, p] =>
+    let per := decNat per
+    ⟨decStr t,
+      if k == "T" then .text (decList "/" decStr p) else if k == "I" then .ints per (decList "/" decInt p)
+      else if k == "R" then .reals per (decList "/" decReal p) else .mo per (decList "|" (decList "/" decReal) p)⟩
+  | _ => ⟨[], .text []⟩
+
+def encDict (d : Dict) : String := encList "," (fun (e : Str × List Str) => encStr e.1 ++ ":" ++ encList "/" encStr e.2) d
+
+def handle (op _opts payload : String) : String :=
+  let L := Gen.LayoutsW.wfxL
+  if op == "dump" then okHex (dump L (decList "," decSec payload))
+  else if op == "parse" then
+    match parse (linesOfHex payload) with
+    | .ok d => "ok " ++ encDict d
+    | .error _ => "err LoadError"
+  else if op == "decodeI" then
+    match decodeInts (decList "/" decStr payload) with
+    | some l => "ok " ++ encList "/" (fun (i : Int) => toString i) l
+    | none => "err LoadError"
+  else if op == "decodeR" then
+    match decodeReals L.d (decList "/" decStr payload) with
+    | some l => "ok " ++ encList "/" encReal l
+    | none => "err LoadError"
+  else "bad-request"
+end WX
+
 def handle : List String → Option String
+  | ["fmtw", op, "wfx", opts, payload] => some (WX.handle op opts payload)
   | ["fmtw", op, "wfn", opts, payload] => some (WF.handle op opts payload)
   | ["fmtw", op, "fchk", opts, payload] => some (FO.handle op opts payload)
   | ["fmtw", op, "poscar", opts, payload] => some (PO.handle op opts payload)
